@@ -223,3 +223,11 @@ for Crossbeam<'static, ItemType, BUFFER_SIZE, MAX_STREAMS> {
         self.streams_manager.name()
     }
 }
+
+#[cfg(feature = "verif")]
+impl<'a, ItemType, const BUFFER_SIZE: usize, const MAX_STREAMS: usize>
+crate::verif::VerifState for Crossbeam<'a, ItemType, BUFFER_SIZE, MAX_STREAMS> {
+    fn verif_state(&self, out: &mut Vec<u64>) {
+        self.streams_manager.verif_state(out);
+    }
+}
